@@ -44,8 +44,9 @@ static bool six_digits(double back, double v, double dim)
 static void tables(unsigned long long& unit)
 {
 	// (also headers that contain a blank line, a whitespace-only line, only a blank, and numeric tokens)
-	const std::vector<std::string> headers = {"", "# one header line", "# first\n# second line of three\n# x\ty\tz", "# top\n\n# after a blank line", "# top\n \t \n# after a whitespace line", " ", "# 3 columns 12 rows 1e5 -7"};
-	const int hlines[] = {0, 1, 3, 3, 3, 1, 1};
+	// and header lines that consist of numbers only: a shape, a run number, column indices)
+	const std::vector<std::string> headers = {"", "# one header line", "# first\n# second line of three\n# x\ty\tz", "# top\n\n# after a blank line", "# top\n \t \n# after a whitespace line", " ", "# 3 columns 12 rows 1e5 -7", "# rows columns\n3 2", "20260928\n# x\ty", "1\t2"};
+	const int hlines[] = {0, 1, 3, 3, 3, 1, 1, 2, 2, 1};
 	for(int rows : {1, 2, 3, 7, 200})
 		for(int cols : {1, 2, 5, 12, 40})
 			for(int pat = 0; pat < 5; pat++)
@@ -92,12 +93,12 @@ static void lists_and_functions(unsigned long long& unit)
 {
 	for(int n : {1, 2, 7, 200})
 		for(int pat = 0; pat < 4; pat++)
-			for(int h = 0; h < 5; h++)
+			for(int h = 0; h < 7; h++)
 				for(double dim : {1.0, 1e-30, 1e30})
 				{
 					if(!mc::mine(unit++)) continue;
-					static const char* LH[] = {"", "# header", "# top\n\n# after a blank line", " ", "# 5 values 1e3"};
-					static const int LHN[] = {0, 1, 3, 1, 1};
+					static const char* LH[] = {"", "# header", "# top\n\n# after a blank line", " ", "# 5 values 1e3", "4", "# entries\n20260928"};
+					static const int LHN[] = {0, 1, 3, 1, 1, 1, 2};
 					V data(n);
 					bool ok = true;
 					for(int i = 0; i < n; i++) { data[i] = pattern_value(pat, i, 3); ld q = fabsl((ld)data[i] / dim); if(q != 0 && (q < 1e-300L || q > 1e300L)) ok = false; }
@@ -238,14 +239,38 @@ static void in_units()
 			for(size_t j = 0; j < 2; j++) if(!mc::same_bits(rm[i][j], t[i][j] / dim)) ok = false;
 		if(!ok) fail("in_units", key, "quotient_wrong", "In_Units does not divide by the unit");
 		// the rounding variants of every overload: entry-wise Round(q/d, digits), for every digits 1..7 (Round admits at most 7)
+		// data set 0 spans many decades; data sets 1 and 2 hold neighbours of similar size on the two sides of a power of ten
+		// (every entry is rounded to its own significant digits, whatever its neighbours are)
+		for(int ds = 0; ds < 3; ds++)
 		{
 			V w{1.2345678, -98765.4321, 0.000314159265, 7.0e20, 0.0};
 			VV tw{{1.2345678, -98765.4321}, {0.000314159265, 7.0e20}, {5.55555555, -0.0044444444}};
+			if(ds == 1) { w = V{12.3456, 8.76543, 9.87654, 10.4321, -95.4321}; tw = VV{{12.3456, 8.76543}, {0.987654, 1.04321}, {-95.4321, 104.567}}; }
+			if(ds == 2) { w = V{0.987654, 1.04321}; tw = VV{{104.567, -95.4321}, {8.76543, 12.3456}, {1.04321, 0.987654}}; }
 			double d2 = 3.0 * dim;
 			for(int dg = 1; dg <= 7; dg++)
 			{
 				g_cases++;
-				std::string k2 = key + ",digits=" + std::to_string(dg);
+				std::string k2 = key + ",data=" + std::to_string(ds) + ",digits=" + std::to_string(dg);
+				// independent of the library's Round: the result is within half a unit of the digits-th significant place of q/d
+				{
+					V rr0 = In_Units(w, dim, true, dg);
+					for(size_t i = 0; i < w.size() && i < rr0.size(); i++)
+					{
+						long double q = (long double)w[i] / dim;
+						if(q == 0) continue;
+						long double half = 0.5L * powl(10.0L, floorl(log10l(fabsl(q))) - dg + 1);
+						if(!(fabsl((long double)rr0[i] - q) <= half * (1 + 1e-9L))) fail("in_units", k2 + ",overload=list,i=" + std::to_string(i), "not_rounded_to_requested_digits", "In_Units(list,dim,true,digits)[i] = " + mc::dec(rr0[i]) + " for q/d = " + mc::dec((double)q));
+					}
+					VV r10 = In_Units(tw, dim, true, dg);
+					for(size_t i = 0; i < tw.size() && i < r10.size(); i++)
+						for(size_t j = 0; j < 2 && j < r10[i].size(); j++)
+						{
+							long double q = (long double)tw[i][j] / dim;
+							long double half = 0.5L * powl(10.0L, floorl(log10l(fabsl(q))) - dg + 1);
+							if(!(fabsl((long double)r10[i][j] - q) <= half * (1 + 1e-9L))) fail("in_units", k2 + ",overload=table,i=" + std::to_string(i) + ",j=" + std::to_string(j), "not_rounded_to_requested_digits", "In_Units(table,dim,true,digits)[i][j] = " + mc::dec(r10[i][j]) + " for q/d = " + mc::dec((double)q));
+						}
+				}
 				V rr = In_Units(w, dim, true, dg);
 				bool o1 = rr.size() == w.size();
 				for(size_t i = 0; o1 && i < w.size(); i++) o1 = mc::same_bits(rr[i], Round(w[i] / dim, dg)) && mc::same_bits(In_Units(w[i], dim, true, dg), Round(w[i] / dim, dg));
